@@ -71,6 +71,7 @@ type W struct {
 	hist  []string
 	seen  map[string]bool
 	wl    *Workload
+	held  []int
 }
 
 func (w *W) Violate(kind, sig, format string, a ...any) {
